@@ -357,6 +357,24 @@ def gen_split(ctx):
             t += r.choice([thr - eps, thr + eps, thr, thr / 2])
             ts.append(t)
         yield {"kind": "splitt", "mode": "grid", "ts": ts, "thr": thr, "nearmiss": True}
+    for k in range(40 if not ctx.thorough else 300):
+        # steps of very different size (all exactly representable, axis-parallel): one long leg along x, then short steps
+        # along y / z whose length or speed sits half a unit next to the threshold - an accumulated path length cannot
+        # resolve them, the step itself can
+        big = 2.0 ** r.choice([20, 26, 30, 34])
+        u = 2.0 ** r.choice([-20, -24, -28])
+        nsm = r.randint(2, 7)
+        ks = [r.randint(1, 7) for _ in range(nsm)]
+        steps = [[big, 0.0, 0.0]] + [[0.0, kk * u, 0.0] if r.random() < 0.7 else [0.0, 0.0, kk * u] for kk in ks]
+        if r.random() < 0.3:
+            steps.append([-big, 0.0, 0.0])
+        dt = r.choice([1.0, 0.5, 2.0])
+        ts = [i * dt for i in range(len(steps) + 1)]
+        kind = ("splitd", "splits")[k % 2]
+        thr = (r.choice(ks) + r.choice([-0.5, 0.0, 0.5])) * u
+        if kind == "splits":
+            thr = thr / dt
+        yield {"kind": kind, "mode": "grid", "steps": steps, "ts": ts, "thr": float(thr), "nearmiss": True, "mixed": True}
     for k in range(6000 if ctx.thorough else 1800):
         kind = ("splitt", "splitd", "splits")[k % 3]
         if k % 5 != 4:      # exact grid
